@@ -128,7 +128,10 @@ def wnd_py(w, flavour=0):
   if w[0] == "call":
     table = {n: r for n, r in w[1]}
     dflt = w[2]
-    return lambda n: wres_py(table.get(n, dflt), flavour + n)
+    g = lambda n: wres_py(table.get(n, dflt), flavour + n)
+    if flavour % 7 == 6:                   # a callable window object whose truth value is False
+      return falsy_callable(None, g, flavour)
+    return as_kind(g, flavour)             # def / lambda / partial / bound method / object with __call__
   return 5
 
 
@@ -277,28 +280,101 @@ def nontrivial_ola(c, o):
 FCODES = ["id", "rev", ["scale", [3, 2]], "sq", "mulsize", "addsize", "droplast", "ramp"]
 
 
+def is_falsy_code(f):
+  return isinstance(f, list) and f[0] == "falsy"
+
+
 def fcode_lit(f):
+  if is_falsy_code(f):
+    return "(FFalsy %s)" % fcode_lit(f[1])
   if isinstance(f, list):
     return "(FScale %s)" % q(f[1])
   return {"id": "FId", "rev": "FRev", "sq": "FSq", "mulsize": "FMulSize", "addsize": "FAddSize",
-          "droplast": "FDropLast", "ramp": "FRamp"}[f]
+          "droplast": "FDropLast", "ramp": "FRamp", "zero": "FZero"}[f]
 
 
-def f1_py(f):
+def base1(f):
+  if is_falsy_code(f):
+    return base1(f[1])
   if isinstance(f, list):
     k = ExactQ(unfr(f[1]))
     return lambda b: [k * x for x in b]
   return {"id": lambda b: b, "mulsize": lambda b: b, "addsize": lambda b: b,
           "rev": lambda b: list(b)[::-1], "sq": lambda b: [x * x for x in b],
-          "droplast": lambda b: list(b)[:-1],
+          "droplast": lambda b: list(b)[:-1], "zero": lambda b: [0 * x for x in b],
           "ramp": lambda b: [x + i for i, x in enumerate(b)]}[f]
 
 
-def f2_py(f):
+def base2(f):
+  if is_falsy_code(f):
+    return base2(f[1])
   if f == "mulsize": return lambda b, n: [x * n for x in b]
   if f == "addsize": return lambda b, n: [x + n for x in b]
-  g = f1_py(f)
+  g = base1(f)
   return lambda b, n: g(b)
+
+
+class _Holder(object):
+  def __init__(self, g): self.g = g
+  def meth(self, *a): return self.g(*a)
+
+
+class _CallObj(object):
+  def __init__(self, g): self.g = g
+  def __call__(self, *a): return self.g(*a)
+
+
+def _falsy_classes():
+  class EmptyList(list):                   # like an empty ParallelFilter / gain bank
+    def __call__(self, *a): return self.g(*a)
+  class EmptyDict(dict):
+    def __call__(self, *a): return self.g(*a)
+  class LenZero(object):
+    def __len__(self): return 0
+    def __call__(self, *a): return self.g(*a)
+  class BoolFalse(object):
+    def __bool__(self): return False
+    def __call__(self, *a): return self.g(*a)
+  return [EmptyList, EmptyDict, LenZero, BoolFalse]
+
+
+def as_kind(g, kind):
+  """The same function as a def / lambda / functools.partial / bound method / object with __call__."""
+  import functools
+  kind = kind % 5
+  if kind == 0: return g
+  if kind == 1: return lambda *a: g(*a)
+  if kind == 2: return functools.partial(lambda tag, *a: g(*a), "tag")
+  if kind == 3: return _Holder(g).meth
+  return _CallObj(g)
+
+
+def falsy_callable(f, g, kind):
+  """A callable OBJECT with truth value False computing g (real library objects where they compute it)."""
+  import audiolazy
+  if f == "zero" and kind % 2 == 0:
+    class ExactParallel(audiolazy.ParallelFilter):     # a real empty ParallelFilter; its float zeros made exact again
+      def __call__(self, seq, *a):
+        return [ExactQ(v) for v in audiolazy.ParallelFilter.__call__(self, seq)]
+    return ExactParallel()
+  if f == "id" and kind % 2 == 0: return audiolazy.CascadeFilter()
+  o = _falsy_classes()[kind % 4]()
+  o.g = g
+  assert callable(o) and not o
+  return o
+
+
+def f1_py(f, kind=0):
+  if is_falsy_code(f):
+    return falsy_callable(f[1], base1(f), kind)
+  return as_kind(base1(f), kind)
+
+
+def f2_py(f, kind=0):
+  if is_falsy_code(f):
+    g1, g2 = base1(f), base2(f)            # called with the block only when the library drops the size
+    return falsy_callable(f[1], lambda b, n=None: g1(b) if n is None else g2(b, n), kind)
+  return as_kind(base2(f), kind)
 
 
 def val_lit(v):
@@ -343,7 +419,7 @@ class StftRun(object):
         self.memo[key] = (lambda size, store=store: store)
       o = self.memo[key]                   # one callable (and one list) shared by every keyword using it
     elif t == "wnd": o = wnd_py(v[1], salt)
-    elif t == "fun": o = f2_py(v[1]) if key in ("transform", "inverse_transform") else f1_py(v[1])
+    elif t == "fun": o = f2_py(v[1], salt) if key in ("transform", "inverse_transform") else f1_py(v[1], salt)
     elif t == "ola": o = self.list_proxy() if v[1] == "list" else self.recorder(v[1][1])
     elif t == "opaque": o = Opaque(v[1])
     else: raise ValueError(v)
@@ -382,8 +458,9 @@ class StftRun(object):
 def run_stft(c):
   import audiolazy
   R = StftRun()
-  layers = [dict((k, R.obj(k, v, i)) for k, v in lay) for i, lay in enumerate(c["layers"])]
-  func = f1_py(c["func"])
+  layers = [dict((k, R.obj(k, v, 3 * i + j + len(c["sig"]))) for j, (k, v) in enumerate(lay))
+            for i, lay in enumerate(c["layers"])]
+  func = f1_py(c["func"], len(c["sig"]) + len(c["layers"]))
   sig = [ExactQ(unfr(p)) for p in c["sig"]]
   if c["sigkind"] == "gen":
     sig = (x for x in sig)
@@ -528,10 +605,11 @@ def gen_stft(tier, rng):
               r = rng.random()
               if r < 0.45: items.append([name, ["none"]])
               else:
-                pool = ["mulsize", "addsize", "rev", "id", ["scale", [3, 2]]] if "transform" in name else ["rev", "sq", "ramp", "id", ["scale", [-2, 3]]]
+                pool = (["mulsize", "addsize", "rev", "id", ["scale", [3, 2]], ["falsy", "mulsize"], ["falsy", "rev"]] if "transform" in name
+                        else ["rev", "sq", "ramp", "id", ["scale", [-2, 3]], "zero", ["falsy", "zero"], ["falsy", "ramp"], ["falsy", "id"]])
                 items.append([name, ["fun", rng.choice(pool)]])
-            func = rng.choice(["id", "rev", "sq", "ramp", ["scale", [5, 2]]])
-            yield stft_case(rng, style, items, func, mk_sig(Ln, rng), ["chain", "wnd=" + wk], sigkind=["list", "gen"][n % 2])
+            func = rng.choice(["id", "rev", "sq", "ramp", ["scale", [5, 2]], ["falsy", "zero"], ["falsy", "rev"], ["falsy", "sq"], "zero"])
+            yield stft_case(rng, style, items, func, mk_sig(Ln, rng), ["chain", "wnd=" + wk, "falsy-func" if is_falsy_code(func) else "func"], sigkind=["list", "gen"][n % 2])
   # (B) routing, seen by a recording overlap-add
   extra_pool = [["ola_wnd", ["wnd", ["iter", "list", [[1, 2], [1, 3]]]]], ["ola_wnd", ["none"]], ["ola_normalize", ["bool", False]],
                 ["ola_normalize", ["bool", True]], ["ola_size", ["nat", 7]], ["ola_hop", ["nat", 1]], ["ola_hop", ["none"]],
@@ -569,7 +647,7 @@ def gen_stft(tier, rng):
       items = [it for it in items if it[0] != "size"]; tags.append("no-size")
     if rng.random() < 0.3:
       items = [it for it in items if it[0] != "wnd"] + [["wnd", ["wnd", mk_window(rng.choice(["list", "call"]), size, 1, 2)]]]
-    yield stft_case(rng, style, items, rng.choice(["id", "rev", "ramp"]), mk_sig(rng.randrange(0, 10), rng), tags,
+    yield stft_case(rng, style, items, rng.choice(["id", "rev", "ramp", ["falsy", "ramp"]]), mk_sig(rng.randrange(0, 10), rng), tags,
                     gc=gconst(size, size))
   # (C) end to end through overlap_add.list
   for _ in range(rep):
@@ -589,7 +667,7 @@ def gen_stft(tier, rng):
               items += [["wnd", ["wnd", cw]], ["ola_normalize", ["bool", False]]]
             elif mode == "plain":
               items += [["ola_normalize", ["bool", False]]]
-              func = rng.choice(["id", "rev", "sq"])
+              func = rng.choice(["id", "rev", "sq", ["falsy", "zero"], ["falsy", "rev"], ["falsy", "id"]])
             elif mode == "normalized":
               if n % 2: items += [["ola_normalize", ["bool", True]]]
               func = rng.choice(["id", ["scale", [1, 3]]])
@@ -708,7 +786,7 @@ def run_shist(c):
       for lay in c["base"][1:]:
         P = P(**mk(lay))
     for use in c["uses"]:
-      func = f1_py(use["func"])
+      func = f1_py(use["func"], salt[0] + len(c["uses"]))
       if use["mode"] == "direct":
         proc = st(func, **mk(use["flayer"]))
       else:
@@ -779,8 +857,10 @@ def ingredient_values(key, size, rng, n):
   wl = ["wnd", mk_window("list", size, n, 3)]; wm = ["wnd", ["memo", wvals(size, n, 4)]]
   if key in ("wnd", "ola_wnd"): return [wa, wb, wl, wm, ["none"], "absent"]
   if key == "hop": return [["nat", h] for h in range(1, size + 1)] + ["absent"]
-  if key in ("transform", "inverse_transform"): return [["fun", "mulsize"], ["fun", "addsize"], ["fun", "rev"], ["none"]]
-  if key in ("before", "after"): return [["fun", "ramp"], ["fun", "sq"], ["fun", "rev"], ["none"]]
+  if key in ("transform", "inverse_transform"):
+    return [["fun", "mulsize"], ["fun", "addsize"], ["fun", "rev"], ["none"], ["fun", ["falsy", "addsize"]]]
+  if key in ("before", "after"):
+    return [["fun", "ramp"], ["fun", "sq"], ["fun", "rev"], ["none"], ["fun", ["falsy", "zero"]], ["fun", ["falsy", "ramp"]]]
   if key == "ola_normalize": return [["bool", True], ["bool", False], "absent"]
   if key == "ola": return [["ola", ["user", 1]], ["ola", ["user", 2]], ["ola", "list"], ["none"]]
   if key == "ola_zz": return [["opaque", 1], ["opaque", 2], ["none"], "absent"]
@@ -795,7 +875,7 @@ def kw_of(key, v):
 
 
 def gen_shist(tier, rng):
-  nrep = 140 if tier == "quick" else 1500
+  nrep = 216 if tier == "quick" else 1800
   for n in range(nrep):
     size = rng.randrange(1, 6)
     key = VARY[n % len(VARY)]
@@ -811,10 +891,13 @@ def gen_shist(tier, rng):
     if key not in ("wnd",) and rng.random() < 0.3:
       common.append(["wnd", ["wnd", mk_window("list", size, n, 7)]])
     sig = lambda: mk_sig(rng.choice([0, size, 2 * size + 1, 7]), rng)
-    func = lambda: rng.choice(["id", "id", "rev", "ramp"])
+    func = lambda: rng.choice(["id", "id", "rev", "ramp", ["falsy", "rev"], ["falsy", "zero"]])
     picks = [rng.choice(vals) for _ in range(3)]
     if picks[0] == picks[1]:
       picks[1] = vals[(vals.index(picks[0]) + 1) % len(vals)]
+    if key in ("wnd", "ola_wnd") and (n // len(VARY)) % 3 != 2:
+      # systematically: two DIFFERENT callables for the same size one after the other (then anything)
+      picks[0], picks[1] = (vals[0], vals[1]) if (n // len(VARY)) % 3 == 0 else (vals[3], vals[0])
     lazy = rng.random() < 0.3
     if n % 2 == 0:
       # (H1) one processor, several calls that differ in one call-time keyword (incl. explicit None over a build value)
